@@ -100,6 +100,7 @@ class Analysis:
         self.loop_stack: List[ast.AST] = []
         self.handler_stack: List[ast.ExceptHandler] = []
         self.finally_stack: List[ast.Try] = []
+        self.absorb_stack: List[Set] = []  # one collector per enclosing cancellation-absorbing scope
         self.steps = 0
 
     # ------------------------------------------------------------------ hooks
@@ -117,6 +118,49 @@ class Analysis:
 
     def with_exit(self, s, o: Out, entered: Set) -> Out:
         return o
+
+    def loop_back(self, loop, state):
+        """State with which the next iteration starts (default: unchanged)."""
+        return state
+
+    def absorbing_scope(self, s) -> bool:
+        """`with move_on_after(…)`: when its deadline fires, the body is abandoned at whatever await it
+        is suspended in and control continues *normally* after the block."""
+        for it in s.items:
+            c = it.context_expr
+            if isinstance(c, ast.Call):
+                try:
+                    name = ast.unparse(c.func)
+                except Exception:
+                    name = ""
+                if name.split(".")[-1] == "move_on_after":
+                    return True
+        return False
+
+    @staticmethod
+    def _may_suspend(s) -> bool:
+        if isinstance(s, (ast.AsyncWith, ast.AsyncFor)):
+            return True
+        if isinstance(s, (ast.If, ast.While)):
+            probe = [s.test]
+        elif isinstance(s, (ast.For,)):
+            probe = [s.iter]
+        elif isinstance(s, ast.With):
+            probe = [it.context_expr for it in s.items]
+        elif isinstance(s, (ast.Try, ast.FunctionDef, ast.AsyncFunctionDef, ast.ClassDef)):
+            return False
+        else:
+            probe = [s]
+        for p in probe:
+            stack = [p]
+            while stack:
+                n = stack.pop()
+                if isinstance(n, ast.Await):
+                    return True
+                if isinstance(n, (ast.FunctionDef, ast.AsyncFunctionDef, ast.Lambda)):
+                    continue
+                stack.extend(ast.iter_child_nodes(n))
+        return False
 
     def enter_handler(self, state, handler, tag, node):
         """State at the start of an except body that caught `tag` raised at `node`."""
@@ -163,6 +207,10 @@ class Analysis:
     def stmt(self, s, states) -> Out:
         self.steps += 1
         out = Out()
+        if self.absorb_stack and self._may_suspend(s):
+            # abandoned while suspended in this statement: nothing of it has taken effect
+            for col in self.absorb_stack:
+                col |= set(states)
         if isinstance(
             s,
             (ast.FunctionDef, ast.AsyncFunctionDef, ast.ClassDef, ast.Import, ast.ImportFrom, ast.Pass, ast.Global, ast.Nonlocal),
@@ -186,12 +234,17 @@ class Analysis:
                 self._exc_of(it.context_expr, states, out)
             entered = self._simples(states, s)
             self.with_stack.append(s)
+            absorbing = self.absorbing_scope(s)
+            if absorbing:
+                self.absorb_stack.append(set())
             try:
                 o = self.block(s.body, entered)
             finally:
                 self.with_stack.pop()
+                abandoned = self.absorb_stack.pop() if absorbing else set()
             o = self.with_exit(s, o, entered)
             out.absorb(o, True)
+            out.normal |= abandoned
             return out
         if isinstance(s, ast.Try):
             return self._try(s, states)
@@ -255,7 +308,7 @@ class Analysis:
                 out.ret |= o.ret
                 out.exc |= o.exc
                 brk = o.brk
-                cur = o.normal | o.cont
+                cur = {self.loop_back(s, st) for st in (o.normal | o.cont)}
                 # a `break` skips the else clause
                 out.normal |= brk
                 self._guard(out)
